@@ -146,6 +146,18 @@ class Ctx:
             self.lib[variant] = (lib, srcs)
             return self.lib[variant]
 
+    def statics_file(self, variant):
+        """objects with static storage duration and functions defined by the library's IR (C19 footprint check)"""
+        lib, _ = self.lib_ir(variant)
+        path = os.path.join(os.path.dirname(lib), "statics.txt")
+        with self.lock:
+            if not os.path.exists(path):
+                r = sh([LL2C, lib, "--list-statics"])
+                if r.returncode != 0:
+                    raise RuntimeError("ll2c --list-statics failed: " + r.stderr[-1000:])
+                open(path, "w").write(r.stdout)
+        return path
+
     # ---------------------------------------------------------------- one translation unit per (harness, shape)
     def unit(self, job, entries):
         key = job.unit_key()
@@ -173,6 +185,8 @@ class Ctx:
             gen = os.path.join(d, "gen.c")
             funcs = os.path.join(d, "funcs.json")
             cmd = [LL2C, mod, "--funcs-out", funcs] + job.ll2c_opts
+            if "--static-writes" in job.ll2c_opts:
+                cmd += ["--static-set", self.statics_file(job.variant)]
             for e in entries:
                 cmd += ["--entry", e]
             with open(gen, "w") as f:
@@ -606,10 +620,50 @@ def run_property(prop, tier, jobs, assumptions, level_text, keep=False, only=Non
     return 0
 
 
+def c19_native(ctx):
+    """n threads on separate instances under ThreadSanitizer, result digests against the single-threaded ones"""
+    with ctx.lock:
+        lk = ctx.unit_locks.setdefault("c19native", threading.Lock())
+    with lk:
+        if getattr(ctx, "c19_result", None) is not None:
+            return ctx.c19_result
+        d = os.path.join(ctx.build, "c19native")
+        os.makedirs(d, exist_ok=True)
+        exe = os.path.join(d, "c19n")
+        srcs = [os.path.join(REPO, "src", f) for f in sorted(os.listdir(os.path.join(REPO, "src"))) if f.endswith(".cpp")]
+        r = sh(["g++", "-std=c++17", "-O1", "-g", "-fsanitize=thread", "-pthread", "-w", "-I" + os.path.join(REPO, "include"), os.path.join(RT, "c19_native.cpp")] + srcs + ["-o", exe])
+        if r.returncode != 0:
+            ctx.c19_result = {"built": False, "out": r.stderr[-2000:], "rc": -1}
+            return ctx.c19_result
+        try:
+            p = subprocess.run([exe], stdout=subprocess.PIPE, stderr=subprocess.STDOUT, text=True, timeout=300, env=dict(os.environ, TSAN_OPTIONS="halt_on_error=0 report_signal_unsafe=0"), errors="replace")
+            ctx.c19_result = {"built": True, "out": p.stdout[-6000:], "rc": p.returncode}
+        except subprocess.TimeoutExpired:
+            ctx.c19_result = {"built": True, "out": "timeout", "rc": -2}
+        return ctx.c19_result
+
+
 def handle_failure(ctx, prop, job, u, res, violations, inconclusive, rec):
     desc = res.get("description", "")
     sl = res.get("sourceLocation", {}) or {}
     pname = res.get("property")
+    if prop == "C19" and desc.startswith("C19:"):
+        # a reachable write into a static-storage object: confirmed by a multi-threaded run under ThreadSanitizer
+        nat = c19_native(ctx)
+        race = "ThreadSanitizer: data race" in nat["out"] or "digests differ" in nat["out"]
+        rdir = os.path.join(os.environ.get("VP_REPLAYS", os.path.join(VERIF, "replays")), prop)
+        os.makedirs(rdir, exist_ok=True)
+        where = "%s:%s %s" % (sl.get("file", "?"), sl.get("line", "?"), sl.get("function", "?"))
+        rpath = os.path.join(rdir, "c19-%s.json" % hashlib.sha1(where.encode()).hexdigest()[:10])
+        json.dump({"property": prop, "kind": "c19-tsan", "harness": job.harness, "entry": job.entry, "defs": job.defs, "description": desc, "location": where,
+                   "native_confirmed": race, "native_output": nat["out"][-4000:]}, open(rpath, "w"), indent=1)
+        rec.setdefault("counterexamples", []).append({"description": desc, "location": where, "confirmed": race, "replay": rpath})
+        if race:
+            violations.append({"replay": rpath, "summary": "%s: write to a static-storage object at %s; ThreadSanitizer / digest comparison of 4 concurrent instances confirms interference" % (job.name(), where)})
+        else:
+            rec.setdefault("shared_but_not_racing", []).append(where)
+            ctx.log("C19-NOTE", job.name(), "write to static storage at", where, "- no race / digest difference natively (synchronised or once-initialised): not a violation")
+        return
     tr = run_cbmc(ctx, job, u, trace_property=pname)
     if tr["status"] == "timeout":
         inconclusive.append((job, "trace run timed out for " + desc))
@@ -636,6 +690,13 @@ def handle_failure(ctx, prop, job, u, res, violations, inconclusive, rec):
 def replay_file(path):
     r = json.load(open(path))
     ctx = Ctx("replay", "quick")
+    if r.get("kind") == "c19-tsan":
+        nat = c19_native(ctx)
+        print(nat["out"])
+        ok = "ThreadSanitizer: data race" in nat["out"] or "digests differ" in nat["out"]
+        print("REPRODUCED" if ok else "NOT REPRODUCED")
+        ctx.cleanup()
+        return 1 if ok else 0
     job = Job(r["harness"], r["entry"], defs=r["defs"], cdefs=r.get("cdefs"), variant=r.get("variant", "real"), in_max=r.get("in_max", 256))
     rep = native_replay(ctx, job, bytes.fromhex(r["input_hex"]), "replay")
     ok, why = confirms(rep, r["description"])
@@ -658,6 +719,14 @@ def write_evidence(ctx, prop, tier, seed, jobs, records, violations, inconclusiv
     dm = demangle(sorted(names))
     repo_funcs = sorted(set(dm.values()))
     static_objects = sorted({s for u in ctx.units.values() for s in u["funcs"].get("static_objects", [])})
+    lib_statics = {}
+    for variant, (lib, _) in ctx.lib.items():
+        sp = os.path.join(os.path.dirname(lib), "statics.txt")
+        if os.path.exists(sp):
+            gl = [l.split() for l in open(sp) if l.startswith("G ")]
+            lib_statics[variant] = {"objects_with_static_storage": len(gl), "writable": [g[2] for g in gl if g[1] == "1"],
+                                    "functions_instrumented": sum(1 for l in open(sp) if l.startswith("F "))}
+    static_write_checks = sum(u["funcs"].get("static_write_checks", 0) for u in ctx.units.values())
     samples = []
     for r in recs[:6]:
         samples.append({k: r.get(k) for k in ("job", "shape", "symbolic", "status", "variables", "clauses", "properties_proved", "properties_failed", "reach_witnesses", "wall_s", "unwind", "unwindset", "outside") if r.get(k) is not None})
@@ -678,6 +747,8 @@ def write_evidence(ctx, prop, tier, seed, jobs, records, violations, inconclusiv
         "traces_validated_against_impl": sum(len(r.get("counterexamples", [])) for r in recs),
         "repo_functions_encoded": repo_funcs,
         "writable_static_objects_in_module": static_objects,
+        "library_static_storage": lib_statics,
+        "static_write_assertions_instrumented": static_write_checks,
         "queries": recs,
         "inconclusive": [{"job": j.name(), "why": w[:400]} for j, w in inconclusive],
         "known_findings_hit": sorted({kf["id"] for kf, _, _ in known_hits}),
